@@ -108,6 +108,16 @@ SNIPPETS = [
     "out = torch.empty((0,) + v.shape).shape[0]", "out = a.squeeze(0)", "out = a[0:1].squeeze(0)", "out = torch.where(a > 0, a, torch.zeros_like(a))",
     "out = 0.5 * (torch.ones_like(a[0]) + a.sum(dim=0) / a.abs().sum(dim=0))", "out = v.sum().abs() < 1e-12", "out = bool(torch.max(v) < 0.5)",
     "out = torch.as_tensor(a.cpu().detach().numpy().astype('float64'), dtype=a.dtype)", "out = torch.from_numpy(a.numpy().T.copy())",
+    # alternative spellings a refactoring may use
+    "out = torch.split(a, [1, 2], dim=1)[1]", "out = torch.split(a, 2, dim=1)[1]", "out = a.split(1, dim=0)[1]", "out = torch.chunk(a, 2, dim=1)[0]", "out = torch.chunk(a, 2, dim=1)[1]",
+    "out = torch.stack(a.unbind(1))", "out = torch.tensor_split(a, 2, dim=1)[0]", "out = torch.column_stack([v, v])", "out = torch.einsum('ij,kj->ik', a, a)", "out = torch.einsum('i,ij->j', v, a)",
+    "out = torch.einsum('ij,j->i', a, w)", "out = torch.einsum('i,i->', w, w)", "out = torch.linalg.vector_norm(a, ord=2, dim=1, keepdim=True)", "out = torch.linalg.vector_norm(a, dim=1)",
+    "out = a.cumsum(1)", "out = a.masked_fill(a > 0, 0.0)", "out = a.index_select(1, torch.tensor([2, 0]))", "out = a.clamp_min(0.0)", "out = torch.clamp_max(a, 0.5)", "out = a.amax(dim=1)",
+    "out = a.amin(dim=0)", "out = a[a.norm(dim=1) > 1.0]", "out = v[v > 0]", "out = a[a > 0]", "x = a.clone(); s = torch.split(x, [1, 2], dim=1)[0]; s += 1; out = x", "out = a.flatten()",
+    "out = torch.cat([g.flatten() for g in a], dim=0)", "out = (a * (w ** 2).unsqueeze(0)) @ b", "out = (a * w ** 2) @ b", "out = torch.logical_and(a > 0, a < 1)", "out = a[0]._is_view()", "out = a.clone()._is_view()",
+    "x = torch.zeros(4, dtype=a.dtype); x[torch.tensor([0, 2])] = 1.0; out = x", "x = torch.zeros(2, 3, dtype=a.dtype); x[:, [0, 2]] = v.unsqueeze(1); out = x",
+    "x = torch.zeros(3, 2, dtype=a.dtype); x[torch.tensor([2, 0])] = a[:, :2].T[:2]; out = x", "x = torch.zeros(3, dtype=a.dtype); x[torch.tensor([1])] += 2.0; out = x",
+    "x = torch.zeros(2, dtype=a.dtype); x[torch.topk(v, k=1, largest=False)[1]] = 1.0; out = x / 1", "x = torch.zeros(3, dtype=a.dtype); x[torch.topk(w, k=2, largest=False)[1]] = 1.0; out = x / 2",
 ]
 ERR_SNIPPETS = ["out = a @ v", "out = a.view(4, 2)", "out = a.T.view(-1)", "out = torch.cat([a, v])", "out = v[5]", "out = torch.stack([v, w])", "out = a + torch.ones(4)", "out = torch.dot(a, a)",
                 "out = a.to(torch.float32) @ w.to(torch.float64)", "out = len(s0)", "out = torch.topk(v, k=3)", "x = a.clone(); x[0] += torch.ones(2); out = x"]
